@@ -332,8 +332,14 @@ def run_struct(spec):
             continue
         for name, val in variants:
             try:
+                before = np.array(val, copy=True) if isinstance(val, np.ndarray) else copy.deepcopy(val)
+                base_before = np.array(val.base, copy=True) if isinstance(val, np.ndarray) and isinstance(val.base, np.ndarray) else None
                 pk = ad.pack(set_in(base_obj, arr['attr_path'], val))
                 err = None
+                same = (np.array_equal(before, val) and (base_before is None or np.array_equal(base_before, val.base))) if isinstance(val, np.ndarray) else before == val
+                if not same:
+                    pk, err = None, 'pack() changed the array it was given'
+                    name = 'C order' if name != 'bytes' else name          # never skipped: reported
             except Exception as e:
                 pk, err = None, repr(e)[:160]
             for k, v in enumerate(arr['values']):
